@@ -6,7 +6,7 @@
    state that is.  C18_theta / C18_split are the amplitude bookkeeping of the S matrix used by the proof. *)
 From Coq Require Import Reals Lra List ZArith.
 From Coquelicot Require Import Complex.
-From QV Require Import Sem TopDownWalk FnPointsModel FnSem FnBits FnLoop.
+From QV Require Import Sem TopDownWalk FnPointsModel FnSem FnBits FnLoop FnUniform.
 Import ListNotations.
 Open Scope R_scope.
 
@@ -26,6 +26,12 @@ Theorem C18_fn_state : forall (n : nat) (Nv : R) (ps : list (list bool * Z)), (2
   = den (map (fun p => ((- RtoC (sqrt (1 / INR (length ps))) * cis (fphi Nv (snd p)))%C, E n (fst p) false false)) ps) b.
 Proof. exact fn_state. Qed.
 Print Assumptions C18_fn_state.
+
+(* uniform magnitude: each of the m coefficients in C18_fn_state has squared modulus 1/m, whatever the output value and N' *)
+Theorem C18_uniform_magnitude : forall (m : nat) (Nv : R) (s : Z), (0 < m)%nat ->
+  (Cmod (- RtoC (sqrt (1 / INR m)) * cis (fphi Nv s))%C)² = 1 / INR m.
+Proof. exact fn_coeff_uniform. Qed.
+Print Assumptions C18_uniform_magnitude.
 
 Theorem C18_target_bits : forall (n : nat) (z : list bool) (q : nat), (2 <= n)%nat ->
   get (E n z false false) q = if (q <? n)%nat then bit z (n - 1 - q) else false.
